@@ -19,7 +19,9 @@ META = {
         "message_direction(), constant-folded by the micro-evaluator for every method, returns it; a constant "
         "named by the documented rule holds each method string; ALL_TYPES_MAP maps each key to the same-named "
         "definition and contains every class, enumeration and alias the module defines; REQUESTS / RESPONSES / "
-        "NOTIFICATIONS are exactly the envelope classes."),
+        "NOTIFICATIONS are exactly the envelope classes."
+        " Base-protocol classes ResponseError / ResponseErrorMessage (not in the metamodel): attribute sets, types, validator "
+        "and defaults are compared with the JSON-RPC shapes stated in the checker."),
     "trusted_base": ["typing normalisation", "attrs field semantics"],
     "assumptions": ["lsp.json is the reference"],
     "not_decided": [],
